@@ -1,4 +1,5 @@
-import Rare.Proofs.C12Main
+import Rare.Proofs.C12Parse
+import Rare.Gen.C12
 /-!
 Property C12 – dissect matching equals its specification; ignore-case only adds matches.
 
@@ -34,6 +35,21 @@ theorem dissect_eq_spec (ic : Bool) (p : Pat) (hp : p.Shape) (d : Dissect)
     (hc : compileEx p.render ic = .ok d) (lines : List Bytes) :
     matchAll d lines = .ok (lines.map fun l => (specFor ic p l).map (·.map Int.ofNat)) :=
   matchAll_eq hp hc lines
+
+/-- **Every byte string is a pattern text**: `p.render` for a well-formed `p`, optionally followed
+by an unclosed token – so `compile_errors` below decides `CompileEx` on ALL inputs. -/
+theorem every_text_is_pattern (s : Bytes) :
+    ∃ (p : Pat) (tail : Option Bytes), p.Shape ∧ (∀ j, tail = some j → rbrace ∉ j) ∧
+      s = p.render ++ tailText tail :=
+  parse_total s
+
+/-- `dissect_eq_spec` for an arbitrary byte string as pattern: whatever compiles IS the text of a
+well-formed pattern, and the results are that pattern's specification. -/
+theorem dissect_eq_spec_all (ic : Bool) (pat : Bytes) (d : Dissect) (hc : compileEx pat ic = .ok d) :
+    ∃ p : Pat, p.Shape ∧ pat = p.render ∧ ∀ lines : List Bytes,
+      matchAll d lines = .ok (lines.map fun l => (specFor ic p l).map (·.map Int.ofNat)) := by
+  obtain ⟨p, hp, hs⟩ := compiles_is_pattern hc
+  exact ⟨p, hp, hs, fun lines => dissect_eq_spec ic p hp d (hs ▸ hc) lines⟩
 
 /-- single line, case-sensitive: the statement of the property verbatim -/
 theorem dissect_eq_spec_one (p : Pat) (hp : p.Shape) (d : Dissect)
@@ -160,6 +176,17 @@ theorem results_disjoint (ic : Bool) (p : Pat) (hp : p.Shape) (d : Dissect)
       (tokRels_compiled ic p.toks) hcount (Pool.new_wf _)
       (by simp only [Dissect.createInstance, Pool.new]; omega)
   exact ⟨vs, s', hr, hpw⟩
+
+/-- **Tie to the source (regenerated on every run)**: the pool sizing expressions of
+`CreateInstance` / `FindSubmatchIndex` and the needles of `CompileEx`, extracted from the Go AST
+into `Rare.Gen.C12`, are the ones the model uses; every request fits the pool 1024 times. -/
+theorem gen_pool_sizing (d : Dissect) :
+    d.createInstance.pool.size = Gen.C12.poolSize d.groupCount ∧
+    (∀ g, Gen.C12.getSize g = g * 2 + 2) ∧
+    (∀ g, 1024 * Gen.C12.getSize g ≤ Gen.C12.poolSize g) ∧
+    Gen.C12.compileNeedles = [[pct, lbrace], [rbrace], [pct, lbrace]] := by
+  refine ⟨by simp [Dissect.createInstance, Pool.new, Gen.C12.poolSize], fun g => rfl, ?_, by decide⟩
+  intro g; simp only [Gen.C12.getSize, Gen.C12.poolSize]; omega
 
 /-! ### Non-vacuity: the hypotheses above are satisfiable on concrete, non-trivial values -/
 
